@@ -113,6 +113,9 @@ def registry():
     tabs = [[1], [2, 1], [3, 3, 1], [4, 2], [5], [6, 4, 5]]
     for k, t in enumerate(tabs): reg[1 + k] = ("table", t, max(t))
     for k, loc in enumerate([0, 2, 7]): reg[10 + k] = ("det", loc, loc)
+    # trainable delay distributions (connections only): (current delay, min, max) in ticks with a dyadic alpha; their quantile is the current delay.
+    # The EXPECTED delay of a connection is what was declared (delay=...), whatever the distribution's current value
+    for k, (cur, mn, mx) in enumerate([(3, 1, 5), (0, 0, 4), (6, 2, 6), (2, 0, 8)]): reg[20 + k] = ("train", (cur, mn, mx), cur)
     return reg
 
 
@@ -126,6 +129,9 @@ def dist_objs():
     for k, (kind, x, q) in REG.items():
         if kind == "table": out[k] = TableDist.create(x)
         elif kind == "det": out[k] = distrax.Deterministic(loc=x * T)
+        elif kind == "train":
+            from rex import base
+            out[k] = base.TrainableDist.create(delay=x[0] * T, min=x[1] * T, max=x[2] * T)
     return out
 
 
@@ -138,6 +144,11 @@ def dist_id(dd):
         t = [round(float(x) * 64) for x in onp.asarray(dd.table)]
         for k, (kind, x, q) in REG.items():
             if kind == "table" and x == t: return k
+        return -1
+    if isinstance(dd, base.TrainableDist):
+        mn, mx, al = float(dd.min) * 64, float(dd.max) * 64, float(onp.asarray(dd.alpha))
+        for k, (kind, x, q) in REG.items():
+            if kind == "train" and (x[1], x[2]) == (mn, mx) and x[0] == mn + al * (mx - mn): return k
         return -1
     if isinstance(dd, base.StaticDist):
         d = dd.dist
@@ -177,9 +188,11 @@ def gen_case(r, kmax, episode=False):
     ("connect", recv, sender, blocking, delay|None, dist|None, window, skip, jitter, name|None) |
     ("set_node", x, dist|None, delay|None) | ("set_conn", recv, key, dist|None, delay|None)"""
     k = r.randint(2, 3) if episode else r.randint(2, kmax)
-    dids = [i for i in REG if i != 0 and (not episode or REG[i][0] == "table")]
+    dids = [i for i in REG if i != 0 and REG[i][0] != "train" and (not episode or REG[i][0] == "table")]
+    cdids = dids + ([] if episode else [i for i in REG if REG[i][0] == "train"])       # trainable distributions are for connections only
 
     def rdist(p_none=0.3): return None if r.random() < p_none else r.choice(dids)
+    def rcdist(p_none=0.3): return None if r.random() < p_none else r.choice(cdids)
     def rdelay(p_none=0.3): return None if r.random() < p_none else r.choice([0, 0, 1, 1, 2, 3, 5, 8])
     nodes = []
     for i in range(k):
@@ -197,7 +210,7 @@ def gen_case(r, kmax, episode=False):
         if episode:
             ops.append(("connect", recv, sender, r.random() < 0.4, r.choice([0, 1, 2]), r.choice(dids), r.choice([1, 2]), False, 1, nm))
         else:
-            ops.append(("connect", recv, sender, r.random() < 0.4, rdelay(), rdist(), r.choice([1, 1, 2, 3]), skip, r.choice([1, 2]), nm))
+            ops.append(("connect", recv, sender, r.random() < 0.4, rdelay(), rcdist(), r.choice([1, 1, 2, 3]), skip, r.choice([1, 2]), nm))
     if episode:
         for i in range(1, k):
             connect(i, r.randrange(i), False)
@@ -216,7 +229,7 @@ def gen_case(r, kmax, episode=False):
             rs = [q for q in keys if keys[q]]
             if not rs: continue
             recv = r.choice(rs)
-            ops.append(("set_conn", recv, r.choice(sorted(keys[recv])), rdist(0.35), rdelay(0.35)))
+            ops.append(("set_conn", recv, r.choice(sorted(keys[recv])), rcdist(0.35), rdelay(0.35)))
     return nodes, ops
 
 
